@@ -303,6 +303,10 @@ def _check_report(ck, rep, where, config, fresh=False):
     if rep.get('open_descriptors_before', 0) != rep.get('open_descriptors_after', 0):
         ck.violation('c16:open-file-descriptors-changed', 'the process holds %r open descriptors after the calls, %r before' % (rep.get('open_descriptors_after'), rep.get('open_descriptors_before')),
                      dict(report=rep, config=config, where=where))
+    for flag, what in (('process_state_same', 'environment / umask / signal dispositions / FP rounding mode'), ('strtok_walk_intact', "the host program's strtok() walk"),
+                       ('rand_sequence_intact', "the host program's rand() sequence")):
+        if rep.get(flag, 1) != 1:
+            ck.violation('c16:process-state-changed:' + flag.split('_')[0], 'library calls disturbed %s' % what, dict(report=rep, config=config, where=where))
     if rep['errors_changed']:
         ck.violation('c16:error-object-changed-later', 'an error object returned earlier was modified by later calls', dict(report=rep, config=config, where=where))
 
